@@ -6,6 +6,7 @@
 //	c17 observe <ops-in> <obs-out>          stream perm only: run the real generators, print digests
 //	c17 explain <ops-in>                    stream perm only: decode and show the first difference of each case
 //	c17 minimise <ops-in> [keys] [attempts] stream perm only: drop objects of the first case while it still differs
+//	c17 vtcheck                             which marshaller protoconv.MessageToAny uses in this binary (build tag vtprotobuf)
 //
 // Streams:
 //
@@ -65,6 +66,8 @@ func main() {
 		default:
 			usage()
 		}
+	case "vtcheck":
+		vtCheck()
 	case "observe":
 		need(4)
 		observePerm(os.Args[2], os.Args[3])
